@@ -26,6 +26,10 @@ MODELLED = ["io.ReadFull / io.Reader (chunk list, final error)", "Go allocator (
             "bufio.Reader and packed.Reader (through the C13 model)", "net.Buffers.WriteTo in Encoder.write (modelled as "
             "writing the concatenation)"]
 ASSUMPTIONS = ["bytes are 0..255; int is 64 bit; MaxMessageSize is a uint64",
+               "Unmarshal of a header with maxSeg = 2^32-1 (>= 16 GiB of input): Go's int(maxSeg+1) wraps in uint32 to 0 and "
+               "demuxArena returns 0 segments; Frame.v's demux_arena does not wrap (iterates 2^32 times): for such inputs "
+               "C14_unmarshal_safe / C14_unmarshal_alloc_linear are about the model only (they remain true of the code: no "
+               "panic, 0 bytes)",
                "decode_encode_stream / cut_is_error and the packed counterparts: every message has 1..512 segments and its frame fits MaxMessageSize "
                "(otherwise the decoder refuses it, which alloc_bound covers)",
                "unmarshal_roundtrip: at most 2^30-1 segments (uint32 wrap of the table index beyond, observation O3)"]
@@ -78,12 +82,16 @@ def post(res, stats, mismatches):
             res.violation(rp)
 
 
-LEVEL_TEXT = ("Proof: for all message lists, all chunkings of the byte stream, with and without ReuseBuffer and for any "
-              "buffer state, Decode returns the messages Encode wrote, in order, then io.EOF; a stream ending strictly "
+LEVEL_TEXT = ("Proof: for all message lists, all chunkings of the byte stream, with the reuse flag on or off and for any "
+              "buffer CAPACITIES, Decode returns the messages Encode wrote, in order, then io.EOF; a stream ending strictly "
               "inside a frame yields an error, never io.EOF (every cut point is a boundary or inside one frame); for all "
               "input bytes and decoder states one Decode requests at most MaxMessageSize bytes of buffers, accepts at "
               "most 512 segments and never panics, also over whole Decode/ReuseBuffer histories; Unmarshal(Marshal x)=x, "
-              "Unmarshal never panics and allocates <= 6 bytes per input byte. Packed paths (composition with C13, for "
+              "Unmarshal never panics; its allocation is a DECLARED cost function (24 bytes per returned segment, not "
+              "an allocation log) and is <= 6 bytes per input byte. ReuseBuffer at the level of buffer contents "
+              "(FrameReuse.v: stale bytes of d.hdrbuf/d.buf, segments as slices, the reused Message and its segment "
+              "cache, Message.Reset): every Decode/read-segments history from any previous buffer contents and any "
+              "cache state returns what the capacities-only decoder returns, hence what Decode without reuse returns. Packed paths (composition with C13, for "
               "every bufio oracle): UnmarshalPacked(MarshalPacked x)=x; NewPackedDecoder returns what NewPackedEncoder "
               "wrote, then io.EOF; for ANY packed input the decoder returns exactly the whole frames of what packed.Reader "
               "hands out (fst (unpack_partial P)) and then an error, never io.EOF, when the input does not unpack or ends "
@@ -91,7 +99,12 @@ LEVEL_TEXT = ("Proof: for all message lists, all chunkings of the byte stream, w
               "same segments (all_paths_same_segments). The model is tied to message.go by a differential run on message "
               "sequences, every/random cut points, hostile headers, MaxMessageSize values, reuse histories, chunk sizes "
               "1..17/4096, packed and unpacked, and Size.times by the translator.")
-LEVEL_NOTE = ("Trusted: Coq kernel, extraction, harness; the models are hand-written (coq/Frame/Frame.v, FramePacked.v). "
+LEVEL_NOTE = ("The content-level reuse model (FrameReuse.v) is tied to the code only through its refinement theorem to the "
+              "capacities model, which is the one run against the implementation; that ru=true and ru=false give the same "
+              "outcome on EVERY byte stream is not one lemma (proved for streams of frames and cut streams; arbitrary "
+              "streams by the run). Aliasing of a returned message with d.buf across the NEXT Decode (documented Go "
+              "behaviour) is modelled (slices) but nothing is claimed about reading a message after the next Decode. "
+              "Trusted: Coq kernel, extraction, harness; the models are hand-written (coq/Frame/Frame.v, FramePacked.v). "
               "Nothing is proved about Decode calls made after the first outcome that is not a message on the packed path. "
               "Two defects found and fixed "
               "(Encode accepted unaligned segments; Decode accepted 513 segments); observation O3 (uint32 wrap of the "
